@@ -199,8 +199,11 @@ def close(a, b, tol=1e-9, depth=0):
 # ----------------------------------------------------------------------------------------------- argument factories
 
 class Case:
-    def __init__(self, fn, args, kwargs=None, dgm_args=(), seeded=False, plot=False, updates_self=False):
+    def __init__(self, fn, args, kwargs=None, dgm_args=(), seeded=False, plot=False, updates_self=False, check=None):
         self.fn, self.args, self.kwargs = fn, list(args), dict(kwargs or {})
+        self.check = check                   # optional: result -> None | text; a relation BETWEEN the calls the case makes inside
+                                             # one result (a query repeated on the same object after another query, against
+                                             # the same query on a fresh object) that the generic comparisons cannot express
         self.updates_self = updates_self     # a setter whose purpose is to change its object: not repeated on the same object
         self.dgm_args = tuple(dgm_args)      # indices of arguments that are diagrams (representation variants)
         self.seeded, self.plot = seeded, plot
@@ -977,8 +980,21 @@ def _(r):
 def _(r):
     o = mk_landscaper(r)
     X = _clipped(r)
-    o.fit(X)
-    return Case(lambda o, X: o.transform(X), [o, X], dgm_args=(1,))
+    if r.random() < 0.75:
+        o.fit(X)
+        return Case(lambda o, X: o.transform(X), [o, X], dgm_args=(1,))
+    # a never-fitted transformer (the grid, where not given, comes from the transformed diagram itself): transform is a
+    # query here too, so the object must look the same afterwards and a second data set must not see the first one's grid
+    Y = _clipped(r)
+    mk = lambda: P("landscapes.transformer").PersistenceLandscaper(**o.get_params())
+
+    def f(o, X, Y):
+        a = o.transform(X)
+        return a, o.transform(Y), mk().transform(Y)
+
+    def chk(res):
+        return None if same(res[1], res[2]) else "transform(Y) after transform(X) on a never-fitted transformer differs from transform(Y) on a fresh one"
+    return Case(f, [o, X, Y], dgm_args=(1,), check=chk)
 
 
 @case(LR + "get_params")
@@ -1210,6 +1226,11 @@ def exercise(ctx, name, seed, kind, others=()):
     ctx.case({"entry": name, "seed": seed}, nontrivial=res1[0] == "ok" and _nontrivial(c), sample_every=211)
     ctx.count("sweep:" + ("ok" if res1[0] == "ok" else "raises:%s:%s" % (res1[1], name)))
     diffs = [d for d in (s.changed("arg%d" % i) for i, s in enumerate(snaps)) if d]
+    if c.check is not None and res1[0] == "ok":
+        msg = c.check(res1[1])
+        ctx.test("query_sequence_independent", msg is None)
+        if msg:
+            problems.append(("history", "%s: %s" % (name, msg)))
     if kind == "inplace_by_contract":
         ctx.count("inplace_by_contract:%s" % ("argument_converted" if diffs else "argument_bytes_unchanged(birth=0)"))
         plt.close("all")
